@@ -311,7 +311,10 @@ def gen_C07(tier, seed):
                             w = ["l"] + ["n"] * f + ["l"] + ["b"] * bk + ["l", "h"]
                             words.append(w)
                     words += [list(w) for w in sample(rng, drain_words(n, min(n + 2, 4)), 12 if tier == "quick" else 80)]
-                    for w in sample(rng, words, 10 if tier == "quick" else 60):
+                    # nth / nth_back (the std defaults: the skipped items are dropped by the drain), incl. huge arguments
+                    for k in list(range(n + 2)) + [U64]:
+                        words += [["l", f"N{k}", "l", "n", "b"], ["b", f"B{k}", "l", "n"], [f"N{k}", f"B{k}", "l"]]
+                    for w in sample(rng, words, 14 if tier == "quick" else 80):
                         b.case(elem, [root, f"@ remove_{kind} {i} {','.join(w) if w else '-'} drop", "@ dump", "@ lens"])
                 b.case(elem, [root, f"@ remove_{kind} {dim + 1} - drop", f"@ remove_{kind} {U64} n drop", "@ dump"])
             # pop until empty and beyond
@@ -699,8 +702,15 @@ def gen_C19(tier, seed):
         kind = rng.random()
         nc = rng.choice(small) if rng.random() < 0.75 else rng.choice(json_dim_values())
         nr = rng.choice(small) if rng.random() < 0.75 else rng.choice(json_dim_values())
+        if rng.random() < 0.12:
+            # dimensions whose product wraps around 2^64 to a small number: the length check alone would accept them
+            a = rng.choice([2, 3, 4, 5, 6, 7, 2**32, 2**63])
+            q = (2**64 + a - 1) // a + rng.randrange(0, 2)
+            nc, nr = (str(a), str(q)) if rng.random() < 0.5 else (str(q), str(a))
         try:
             prod = int(nc) * int(nr)
+            if prod >= 2**64 and rng.random() < 0.85:
+                prod = prod % 2**64
         except ValueError:
             prod = rng.randrange(5)
         L = prod if rng.random() < 0.6 else max(0, prod + rng.choice([-1, 1, 2]))
@@ -830,6 +840,8 @@ def gen_C12(tier, seed):
                             w = ["n"] * f + ["b"] * bk + ["l"]
                             b.case(elem, [root, f"@ remove_{kind} {i} {','.join(w)} leak"] + after_ops(rng, C))
                 b.case(elem, [root, f"@ pop_{kind} n leak", "@ lens", f"@ pop_{kind} - leak", "@ lens", f"@ pop_{kind} b leak"] + after_ops(rng, C))
+                b.case(elem, [root, f"@ remove_{kind} 0 N1,l leak"] + after_ops(rng, C))
+                b.case(elem, [root, f"@ remove_{kind} 0 B1,n leak"] + after_ops(rng, C))
             # borrow-only values: creating and dropping iterators/views changes nothing
             b.case(elem, [root, "@ rows -", "@ rows_mut -", "@ cells -", "@ cells_mut -", "@ col 0 -", "@ col_mut 0 -",
                           f"@v(0,0,{C},{R}) size", f"@w(0,0,{C},{R}) size", "@ dump"])
@@ -858,7 +870,7 @@ def hist_ops(rng, C, R, k, elem="u32"):
         return (line, (C + 1, Lc) if ok and Lc > 0 else (C, R))
     if choice < 0.36:
         i = maybe_bad(rng.randrange(R) if R else 0, R)
-        w = ",".join(rng.choice("nbl") for _ in range(rng.randrange(0, C + 2))) or "-"
+        w = ",".join(rng.choice(["n", "b", "l", "N1", "B1", "N0"]) for _ in range(rng.randrange(0, C + 2))) or "-"
         ok = i < R
         newd = (C, R - 1) if ok else (C, R)
         if newd[1] == 0:
@@ -866,7 +878,7 @@ def hist_ops(rng, C, R, k, elem="u32"):
         return (f"@ remove_row {i} {w} drop", newd)
     if choice < 0.46:
         i = maybe_bad(rng.randrange(C) if C else 0, C)
-        w = ",".join(rng.choice("nbl") for _ in range(rng.randrange(0, R + 2))) or "-"
+        w = ",".join(rng.choice(["n", "b", "l", "N1", "B1", "N0"]) for _ in range(rng.randrange(0, R + 2))) or "-"
         ok = i < C
         newd = (C - 1, R) if ok else (C, R)
         if newd[0] == 0:
@@ -988,10 +1000,28 @@ def generate(pid, tier, seed):
     return GENS[pid](tier, seed)
 
 
+NT = "; a step counts as distinct/non-trivial by the pair (operation line, root state before it)"
 RULES = {
-    "C20": "exhaustive: every constructor x dims in {0..4(5),2^32,2^63,2^64-1}^2 x buffer lengths product-1..product+1 x {u32,cell}; conversions on all shapes <=4x4; a step is non-trivial/distinct by (op line, state before)",
-    "C02": "all shapes <= 4x4 (5x5), receivers root/ext/view/view_mut/nested (sampled windows), coordinates in {0..dim+1, 2^32, 2^63, 2^64-1, ceil(2^64/stride)..}; every checked accessor; distinct = (op line, state before)",
-    "C03": "all parents <= 3x3 (4x4) x all (start,end) in {0..dim+1}^4 x 3 receiver kinds, nested to depth 3 (sampled), slice-built roots; distinct = (op line, state before)",
+    "C01": "random histories of 10-40 mostly-valid operations (structural, in-place, rejected calls, views, iterators) on u32 / ledgered cell / zero-sized elements from shapes <=3x3, `lens` after every step; plus exhaustive depth-3 (4) words over 14 structural operations from 5 tiny shapes" + NT,
+    "C20": "every constructor x dims in {0..4(5),2^32,2^63,2^64-1}^2 x buffer lengths product-1..product+1 x {u32,cell}; slice-built views; conversions on all shapes <=4x4" + NT,
+    "C02": "all shapes <= 4x4 (5x5), receivers root/ext/view/view_mut/nested (sampled windows), coordinates in {0..dim+1, 2^32, 2^63, 2^64-1, ceil(2^64/stride)..}; every checked accessor and its mutable form; unchecked getters on valid coordinates" + NT,
+    "C03": "all parents <= 3x3 (4x4) x all (start,end) in {0..dim+1}^4 x 3 receiver kinds, nested to depth 3 (sampled), slice-built roots, writes through the innermost mutable view" + NT,
+    "C04": "all parents <= 4x4 (5x5), sampled windows incl. nested, 27 mutating operations each from a fresh root; the whole parent is compared" + NT,
+    "C05": "random histories on ledgered cells and zero-sized elements; every conversion (into_vec/box/iter k, clone, to_owned, constructors replacing an array) on all shapes <=3x3; drop list, live count and double-drop counter compared after every step and at the final drop" + NT,
+    "C06": "all shapes <= 4x4 (5x5) x index 0..dim+1 x length 0..dim+1 x {u32,cell,zst} x {exact, reserved, shrunk} capacity; push twice; random build-up histories from the empty array" + NT,
+    "C07": "all shapes <= 4x4 (5x5) x every index x (front,back) consumption splits with len() in between + random words over n,b,l x {u32,cell,zst}; out-of-range and huge indices; pop until empty and beyond" + NT,
+    "C08": "all shapes <= 3x3 (4x4) x receivers (root, ext, sampled views, nested, slice-built) x rows/rows_mut x (sampled exhaustive words to depth 3 over n,b,l,N0,N1,B0,B1 + random words of length <=9 with arguments 2^32, 2^63, 2^64-1, ceil(2^64/stride)+-1 and a consuming last step)" + NT,
+    "C09": "as C08 for col/col_mut with every column index 0..C (out of range included) and index steps",
+    "C10": "as C08 for cells/cells_mut/iter_ref/iter_mut",
+    "C11": "all shapes <= 3x3 (4x4): insert_row/insert_col with the iterator panicking at every position and with claimed lengths real-1, real+1, 0, 2^63, 2^64-1 x {cell,zst,u32}; k-th Clone/Drop/Default/comparator/key call panicking for k in {0,1,n-1,n,n+1} in 25 operations; each followed by read, push, pop, final drop" + NT,
+    "C12": "all shapes <= 4x4 (5x5) x both drains x every index x every (front,back) consumption split, leaked, then read / push / pop / drop x {cell,u32,zst}; repeated leaked pops; borrow-only values created and dropped" + NT,
+    "C13": "all shapes <= 4x4 (5x5) x receivers (root, ext, full-height narrow views, sampled and nested views, slice-built) x all (r1,r2), (c1,c2) in {0..dim+1, 2^64-1}^2 for swap_rows/row_pair/swap_cols, sampled swap pairs, fill on u32 and cell" + NT,
+    "C14": "all shapes <= 3x3 (4x4) x receivers x source lengths n-1..n+1 / source shapes (same, transposed, +1) / strided source views; copy_within: sampled (all in thorough) source rectangles x destination corners incl. one-off invalid and 2^64-1" + NT,
+    "C15": "all shapes <= 5x5 (8x8) x all mids 0..dim+1 and 2^64-1 on root, ext and views; arrays with 6..12 (16) rows x 1,3,4 columns x every row mid (every gcd pattern); flips" + NT,
+    "C16": "all shapes <= 4x4 (5x5) x 6 row variants x every row index 0..dim+1 and 2^64-1 x root/ext/views, keys drawn from a 3-letter alphabet with distinct cells (all tie patterns over the repetitions); wide arrays 40-70 (24-260) columns x 2 rows with a 2-letter alphabet" + NT,
+    "C17": "as C16 for the 5 column variants (tall arrays)",
+    "C18": "all shapes <= 4x4 (6x6), 1x9, 9x1, 7x5 with boundary u32 values x {u32,cell} x 4 transports; views, shared views and slice-built views (u32)" + NT,
+    "C19": "600 (6000) grammar-generated documents (missing / duplicated / unknown / escaped keys, dimension values 0..6, 2^32, 2^63, 2^64-1, 2^64, -1, 1.5, 1e2, \"3\", null, [], {}, true, 01; data length product-1..product+2, ill-typed elements, non-array data, non-object documents, truncated text) x 4 transports; well-formed documents on ledgered cells" + NT,
 }
 
 
@@ -1003,7 +1033,11 @@ def exhaustive(pid, tier):
     return False
 
 
-PARTIAL = {}
+PARTIAL = {
+    "C05": ["the accounting law is proved on the model; that Rust runs Drop exactly where the model says is observed by the ledger on explored histories only"],
+    "C11": ["proved for insert_row / insert_col (any script), the DrainCol drop loop and the sort prefix; panics inside Vec's own operations (resize_with, vec!, fill, clone, drain, clear) and unwinding are assumed components, exercised by fault injection and judged by the oracle's generic clauses"],
+    "C12": ["the state a leaked vec::Drain leaves behind is std-unspecified; the model assumes today's behaviour (len = start of the drained range), validated on every run"],
+}
 
 
 def partial(pid):
